@@ -7,7 +7,7 @@ use alloc::vec::Vec;
 pub const EST_COUNTERS: usize = 8;
 
 /// abstract view of the estimator: window counter, sample size, the 4 x width counters, doorkeeper word 0
-#[derive(Clone, Copy, PartialEq, Eq, Debug)]
+#[derive(Clone, Copy, Debug)]
 pub struct EstAbs {
     pub w: usize,
     pub samples: usize,
@@ -15,6 +15,26 @@ pub struct EstAbs {
     pub c: [[u8; EST_COUNTERS]; 4],
     pub bits: u64,
 }
+
+impl PartialEq for EstAbs {
+    // element-wise (no memcmp over the 32 counter bytes: keeps loop bounds at 8)
+    fn eq(&self, o: &EstAbs) -> bool {
+        let mut ok = self.w == o.w && self.samples == o.samples && self.width == o.width && self.bits == o.bits;
+        let mut r = 0;
+        while r < 4 {
+            let mut i = 0;
+            while i < EST_COUNTERS {
+                if self.c[r][i] != o.c[r][i] {
+                    ok = false;
+                }
+                i += 1;
+            }
+            r += 1;
+        }
+        ok
+    }
+}
+impl Eq for EstAbs {}
 
 impl<K: Hash + Eq, KH: KeyHasher<K>> TinyLFU<K, KH> {
     pub(crate) fn verif_abs(&self) -> EstAbs {
